@@ -120,6 +120,12 @@ def evaluateHorner (st : μ) (f : Array (Cx α)) (za : Cx α) (zgpow : Cx α) (s
   let coeff : Cx α := Cx.mul (Cx.ofRe (ofInt ((-1) ^ s.natAbs * eps s))) zgpow
   Cx.mul acc coeff
 
+/-- `_evaluate_Horner` as shipped: the kernel first sets its output cell to 0 (`f[0] = 0.0`), so whatever the cell
+    held before (`prev`: a caller-supplied `out` array) is discarded. -/
+def evaluateHornerK (st : μ) (f : Array (Cx α)) (za : Cx α) (zgpow : Cx α) (s : Int) (ellMax : Nat) (prev : Cx α) : Cx α :=
+  let _ := prev
+  evaluateHorner (α := α) st f za zgpow s ellMax ⟨zero, zero⟩
+
 /-- `_rotate_Horner`: output weight (ℓ, m) for one row of mode weights.  `zgpow m` is `zᵧ**m` (parameter). -/
 def rotateHornerEntry (st : μ) (f : Array (Cx α)) (za : Cx α) (zgpow : Int → Cx α) (ell : Nat) (m : Int) : Cx α :=
   let zab := Cx.conj za
